@@ -47,7 +47,7 @@ type BindSpec struct {
 	Nonce    bool
 	URL      string // same | other | absent | nonstring
 	MacWith  int    // key index whose issued secret is used; -1 garbage secret
-	Payload  string // outer | other | null | notjwk | garbage
+	Payload  string // outer | other | null | notjwk | garbage | other-kid-outer | other-kid-arb | outer-kid-arb
 	Tamper   bool
 	BadProt  bool // protected member is not a base64url JSON object
 	ExtraSig bool // binding object carries a "signatures" array too (parser decides what that means)
@@ -198,6 +198,20 @@ func (w *world) build(k *Case, rs ReqSpec, keys []liveKey, accKeys []*env.Key) b
 			inner, _ = ak.JWK().MarshalJSON()
 		case "other":
 			inner, _ = accKeys[(rs.AccKey+1)%len(accKeys)].JWK().MarshalJSON()
+		case "other-kid-outer", "other-kid-arb", "outer-kid-arb":
+			// the payload JWK carries a client-chosen "kid": the thumbprint of the OUTER key on a
+			// different key, or an arbitrary string
+			src := accKeys[(rs.AccKey+1)%len(accKeys)]
+			if bs.Payload == "outer-kid-arb" {
+				src = ak
+			}
+			m := env.JWKMap(src.JWK())
+			if bs.Payload == "other-kid-outer" {
+				m["kid"] = ak.Thumb()
+			} else {
+				m["kid"] = "chosen-by-the-client"
+			}
+			inner, _ = json.Marshal(m)
 		case "null":
 			inner = []byte("null")
 		case "notjwk":
@@ -517,7 +531,7 @@ func genBind(r *c.Rng, nkeys int) BindSpec {
 	case 5:
 		b.MacWith = c.Pick(r, []int{-1, kid + 1})
 	case 6:
-		b.Payload = c.Pick(r, []string{"other", "null", "notjwk", "garbage"})
+		b.Payload = c.Pick(r, []string{"other", "null", "notjwk", "garbage", "other-kid-outer", "other-kid-outer", "other-kid-arb", "outer-kid-arb"})
 	case 7:
 		b.Tamper = true
 	case 8:
@@ -713,6 +727,11 @@ func main() {
 		emit(&Case{Kind: "hist", Keys: []KeySpec{{0}}, Reqs: []ReqSpec{{Prov: 0, AccKey: 0, Bind: validBind(0)}, {Prov: 0, AccKey: 1, Bind: validBind(0)}, {Prov: 0, AccKey: 0, Bind: validBind(0)}}})
 		emit(&Case{Kind: "hist", Keys: []KeySpec{{0}, {1}}, Reqs: []ReqSpec{{Prov: 1, AccKey: 0, Bind: validBind(0)}, {Prov: 0, AccKey: 0, Bind: validBind(0)}, {Prov: 1, AccKey: 1, Bind: validBind(0)}, {Prov: 1, AccKey: 1, Bind: validBind(1)}}})
 		emit(&Case{Kind: "hist", Keys: []KeySpec{{0}}, Reqs: []ReqSpec{{Prov: 2, AccKey: 0, Bind: BindSpec{Omit: true}}, {Prov: 0, AccKey: 1, Bind: BindSpec{Omit: true}}}})
+		for _, pl := range []string{"other-kid-outer", "other-kid-arb", "outer-kid-arb"} {
+			b := validBind(0)
+			b.Payload = pl
+			emit(&Case{Kind: "hist", Keys: []KeySpec{{0}}, Reqs: []ReqSpec{{Prov: 0, AccKey: 0, Bind: b}, {Prov: 0, AccKey: 0, Bind: validBind(0)}}})
+		}
 		for i := 0; i < *n; i++ {
 			emit(genHist(r.Fork()))
 		}
@@ -726,6 +745,11 @@ func main() {
 	case "bindonce":
 		for _, s := range []string{"000111", "111000", "010101"} {
 			emit(d11Pair(s, "bindonce"))
+		}
+		for _, pl := range []string{"other-kid-outer", "other-kid-arb", "outer-kid-arb"} {
+			b := validBind(0)
+			b.Payload = pl
+			emit(&Case{Kind: "bindonce", Keys: []KeySpec{{0}}, Reqs: []ReqSpec{{Prov: 0, AccKey: 0, Bind: b}, {Prov: 0, AccKey: 0, Bind: validBind(0)}}})
 		}
 		for i := 0; i < *n; i++ {
 			k := genHist(r.Fork())
